@@ -1176,13 +1176,66 @@ func storageKeyArgs(call ssa.CallInstruction) []ssa.Value {
 // helperKeyParams: parameter indices p of g such that every storage write primitive executed by g (its closures
 // included) selects its target (storage key / address) from p; empty when g has no such writes or some write's
 // target does not depend on a parameter.
-func helperKeyParams(g *ssa.Function) []int {
+func helperKeyParams(g *ssa.Function) []int { return helperKeyParamsD(g, 0) }
+
+// hasStorageWrites: g (closures and module helpers to depth 2 included) performs a storage write primitive.
+func hasStorageWrites(g *ssa.Function, depth int) bool {
+	for _, f := range core.WithClosures(g) {
+		for _, call := range core.Calls(f) {
+			if storageKeyArgs(call) != nil {
+				if c2, ok := call.(*ssa.Call); ok && isPureCallee(c2) {
+					continue
+				}
+				return true
+			}
+			if h := core.StaticCallee(call); h != nil && h != g && len(h.Blocks) > 0 && depth < 2 && core.TheProg != nil && core.TheProg.InModule(h) && core.PkgOf(h) == core.PkgOf(g) && hasStorageWrites(h, depth+1) {
+				return true
+			}
+		}
+	}
+	return false
+}
+
+func helperKeyParamsD(g *ssa.Function, depth int) []int {
 	counts := map[int]int{}
 	n := 0
 	for _, f := range core.WithClosures(g) {
 		for _, call := range core.Calls(f) {
 			ka := storageKeyArgs(call)
 			if ka == nil {
+				// a helper of the same package that writes (st.addRecord(account) inside st.add): its writes count as one
+				// write keyed by those of g's parameters that it receives in its own key parameters
+				h := core.StaticCallee(call)
+				if h == nil || h == g || len(h.Blocks) == 0 || depth >= 2 || core.PkgOf(h) != core.PkgOf(g) || !hasStorageWrites(h, depth+1) {
+					continue
+				}
+				n++
+				seen := map[int]bool{}
+				for _, pi := range helperKeyParamsD(h, depth+1) {
+					if pi >= len(call.Common().Args) {
+						continue
+					}
+					core.Mentions(call.Common().Args[pi], func(v ssa.Value) bool {
+						switch x := v.(type) {
+						case *ssa.Parameter:
+							for i, p := range g.Params {
+								if p == x {
+									seen[i] = true
+								}
+							}
+						case *ssa.FreeVar:
+							for i, p := range g.Params {
+								if p.Name() == x.Name() {
+									seen[i] = true
+								}
+							}
+						}
+						return false
+					})
+				}
+				for i := range seen {
+					counts[i]++
+				}
 				continue
 			}
 			if c2, ok := call.(*ssa.Call); ok && isPureCallee(c2) {
